@@ -14,9 +14,11 @@ import (
 	"io"
 	"iter"
 	"net/http"
+	"runtime"
 	"strconv"
 	"strings"
 	"sync"
+	"sync/atomic"
 	"testing"
 	"testing/synctest"
 
@@ -36,12 +38,18 @@ type Step struct {
 }
 
 type Script struct {
+	// Yields: the event store's Append yields the processor this many times before storing (race
+	// variant): it widens the window between "stored" and "delivered" for a concurrently arriving resume.
+	Yields  int    `json:"yields,omitempty"`
 	Version string `json:"version"` // 2025-03-26 | 2025-06-18 (no priming) | 2025-11-25 (priming)
 	Steps   []Step `json:"steps"`
 }
 
 func genScript(rt *rapid.T, race bool) Script {
 	s := Script{Version: rapid.SampledFrom([]string{"2025-03-26", "2025-06-18", "2025-11-25", "2025-11-25"}).Draw(rt, "version")}
+	if race {
+		s.Yields = rapid.SampledFrom([]int{0, 50, 2000, 2000}).Draw(rt, "yields")
+	}
 	n := rapid.IntRange(2, 30).Draw(rt, "n")
 	posts := 0
 	for i := 0; i < n; i++ {
@@ -64,7 +72,8 @@ func genScript(rt *rapid.T, race bool) Script {
 				w, r = "snote", "sresume"
 			}
 			for k := rapid.IntRange(1, 3).Draw(rt, "detached_writes"); k > 0; k-- {
-				s.Steps = append(s.Steps, Step{Kind: w, S: st.S})
+				// in the race variant the last detached write may overlap the resume that follows
+				s.Steps = append(s.Steps, Step{Kind: w, S: st.S, NoWait: race && k == 1 && rapid.Bool().Draw(rt, "write_races_resume")})
 			}
 			if st.Kind == "cut" && rapid.IntRange(0, 3).Draw(rt, "finish_detached") == 0 {
 				s.Steps = append(s.Steps, Step{Kind: "finish", S: st.S})
@@ -77,9 +86,11 @@ func genScript(rt *rapid.T, race bool) Script {
 
 // recStore records the append order: the ground truth W(stream).
 type recStore struct {
-	inner *mcp.MemoryEventStore
-	mu    sync.Mutex
-	logs  map[string][][]byte // streamID -> payloads in append order
+	inner      *mcp.MemoryEventStore
+	yields     int
+	afterCalls atomic.Int64
+	mu         sync.Mutex
+	logs       map[string][][]byte // streamID -> payloads in append order
 }
 
 func (r *recStore) Open(ctx context.Context, sess, stream string) error {
@@ -89,9 +100,24 @@ func (r *recStore) Append(ctx context.Context, sess, stream string, data []byte)
 	r.mu.Lock()
 	r.logs[stream] = append(r.logs[stream], append([]byte(nil), data...))
 	r.mu.Unlock()
-	return r.inner.Append(ctx, sess, stream, data)
+	err := r.inner.Append(ctx, sess, stream, data)
+	// the message is stored now; give a concurrently arriving resume the chance to run before the
+	// caller goes on to deliver it
+	// (bounded: in the correct code a resume waits for the stream lock the caller holds, so the loop
+	// simply runs out; nothing here blocks)
+	start := r.afterCalls.Load()
+	for i := 0; i < r.yields && r.afterCalls.Load() == start; i++ {
+		runtime.Gosched()
+	}
+	if r.afterCalls.Load() != start {
+		for i := 0; i < 300; i++ { // let that resume finish replaying and attach
+			runtime.Gosched()
+		}
+	}
+	return err
 }
 func (r *recStore) After(ctx context.Context, sess, stream string, index int) iter.Seq2[[]byte, error] {
+	r.afterCalls.Add(1)
 	return r.inner.After(ctx, sess, stream, index)
 }
 func (r *recStore) SessionClosed(ctx context.Context, sess string) error {
@@ -147,7 +173,7 @@ type emitIn struct {
 }
 
 func runInBubble(s Script) (res vt.Result) {
-	store := &recStore{inner: mcp.NewMemoryEventStore(nil), logs: map[string][][]byte{}}
+	store := &recStore{inner: mcp.NewMemoryEventStore(nil), logs: map[string][][]byte{}, yields: s.Yields}
 	var cmu sync.Mutex
 	cmds := map[int]chan cmd{}
 	cmdCh := func(k int) chan cmd {
